@@ -122,7 +122,8 @@ impl Trace for ClassAttributes {
 
 #[derive(Debug, Clone, Copy)]
 pub struct TryAttributes {
-  scope_depth: usize,
+  /// how many try blocks of this function are active, this one included
+  depth: usize,
 }
 
 #[derive(Debug, Clone, Copy)]
@@ -130,6 +131,9 @@ pub struct LoopAttributes {
   scope_depth: usize,
   start: Label,
   end: Label,
+
+  /// how many try blocks were active when the loop was entered
+  try_depth: usize,
 }
 
 #[derive(Default)]
@@ -474,6 +478,7 @@ impl<'a, 'src: 'a> Compiler<'a, 'src> {
       scope_depth: self.scope_depth,
       start,
       end,
+      try_depth: self.try_attributes.map_or(0, |try_attributes| try_attributes.depth),
     };
     let enclosing_loop = self.loop_attributes.replace(loop_attributes);
 
@@ -1621,12 +1626,13 @@ impl<'a, 'src: 'a> Compiler<'a, 'src> {
     let new_local_count = self.drop_local_count(loop_attributes.scope_depth);
     self.drop_locals(continue_.end(), new_local_count);
 
-    // if our try catch is inside this loop
-    // a break will jump outside of it so we need to pop the handler
-    if let Some(try_attributes) = self.try_attributes {
-      if try_attributes.scope_depth > loop_attributes.scope_depth {
-        self.emit_byte(SymbolicByteCode::PopHandler, continue_.start());
-      }
+    // every try block entered since the loop began is left by this
+    // jump so each of their handlers is popped
+    let try_depth = self
+      .try_attributes
+      .map_or(0, |try_attributes| try_attributes.depth);
+    for _ in loop_attributes.try_depth..try_depth {
+      self.emit_byte(SymbolicByteCode::PopHandler, continue_.start());
     }
 
     self.emit_byte(
@@ -1644,12 +1650,13 @@ impl<'a, 'src: 'a> Compiler<'a, 'src> {
     let new_local_count = self.drop_local_count(loop_attributes.scope_depth);
     self.drop_locals(break_.end(), new_local_count);
 
-    // if our try catch is inside this loop
-    // a break will jump outside of it so we need to pop the handler
-    if let Some(try_attributes) = self.try_attributes {
-      if try_attributes.scope_depth > loop_attributes.scope_depth {
-        self.emit_byte(SymbolicByteCode::PopHandler, break_.start());
-      }
+    // every try block entered since the loop began is left by this
+    // jump so each of their handlers is popped
+    let try_depth = self
+      .try_attributes
+      .map_or(0, |try_attributes| try_attributes.depth);
+    for _ in loop_attributes.try_depth..try_depth {
+      self.emit_byte(SymbolicByteCode::PopHandler, break_.start());
     }
 
     self.emit_byte(SymbolicByteCode::Jump(loop_attributes.end), break_.start());
@@ -1659,7 +1666,10 @@ impl<'a, 'src: 'a> Compiler<'a, 'src> {
   fn try_(&mut self, try_: &'a ast::Try<'src>) {
     // set this try block as the current
     let try_attributes = TryAttributes {
-      scope_depth: self.scope_depth,
+      depth: self
+        .try_attributes
+        .map_or(0, |try_attributes| try_attributes.depth)
+        + 1,
     };
     let enclosing_try = self.try_attributes.replace(try_attributes);
 
